@@ -459,6 +459,35 @@ pub fn add_twins(u: &mut Universe, src: &mut Src, n: usize) {
     }
 }
 
+/// A hand-made twin pair: two zero-copy structures of the same name whose alignment units differ (1/2 against
+/// 8/16), so that anything remembered per type *name* about units or layouts is wrong for one of them.
+pub fn add_unit_twins(u: &mut Universe) {
+    use crate::ty::Prim::*;
+    let mk = |k: usize, side: &str, small: Prim, big: Prim| AdtDef {
+        name: "T".into(),
+        module: format!("twinu{}{}", k, side),
+        copy: CopyKind::Zero,
+        reprs: vec!["C".into()],
+        params: vec![],
+        where_preds: vec![],
+        body: Body::Struct(Fields::Named(vec![("a".to_string(), Ty::Prim(small)), ("b".to_string(), Ty::Prim(big)), ("c".to_string(), Ty::arr(Ty::Prim(small), 3))])),
+        mutant_of: None,
+        mutation: None,
+    };
+    for (k, (s1, b1, s2, b2)) in [(U8, U16, U8, U64), (U8, U8, U32, U128), (U64, U64, U8, U16)].into_iter().enumerate() {
+        u.adts.push(mk(k, "a", s1, b1));
+        let ia = u.adts.len() - 1;
+        let mut d = mk(k, "b", s2, b2);
+        d.mutant_of = Some(ia);
+        d.mutation = Some("same type name, field types of another width".into());
+        u.adts.push(d);
+        let ib = u.adts.len() - 1;
+        u.subjects.push(Ty::adt(ia, vec![]));
+        u.subjects.push(Ty::adt(ib, vec![]));
+        u.pairs.push((u.subjects.len() - 2, u.subjects.len() - 1));
+    }
+}
+
 /// Near-miss variants of a built-in closed type (sequence kind, array length, tuple arity, same-size
 /// primitive, option/bound), each a valid closed type.
 pub fn builtin_near_misses(u: &Universe, t: &Ty) -> Vec<Ty> {
